@@ -1,19 +1,18 @@
 (* rANS Nx16, WHOLE STREAMS: rans_nx16::encode and rans_nx16::decode (noodles-cram
    src/codecs/rans_nx16/{encode,decode}.rs, decode/rle/context.rs) with the PACK / RLE / CAT
-   transforms of NV.Cram.Nx16Xform in front of the ORDER-0 entropy coder of NV.Cram.Nx16O0
-   (N = 4 or 32 interleaved states).  The decoder also takes the branch for entropy-compressed RLE
-   meta-data (never produced by noodles' encoder, accepted by its decoder).
+   transforms of NV.Cram.Nx16Xform in front of the ORDER-0 entropy coder of NV.Cram.Nx16O0 or the
+   ORDER-1 entropy coder of NV.Cram.Nx16O1 (N = 4 or 32 interleaved states).  The decoder also
+   takes the branches for entropy-compressed RLE meta-data and an entropy-compressed order-1 table
+   (never produced by noodles' encoder, accepted by its decoder).
 
-   Not modelled: STRIPE and the order-1 entropy coder; the model answers NeStripe / NeOrder1 and
-   DUnsupported there. *)
+   Not modelled: STRIPE; the model answers NeStripe / DUnsupported there. *)
 From Coq Require Import List NArith Bool PeanoNat.
-From NV Require Import Cram.Bytes Cram.Vlq Cram.Rans4x8 Cram.Nx16Xform Cram.Nx16O0.
+From NV Require Import Cram.Bytes Cram.Vlq Cram.Rans4x8 Cram.Nx16Xform Cram.Nx16O0 Cram.Nx16O1.
 Import ListNotations.
 Open Scope N_scope.
 
 Inductive nxe_result :=
 | NeOk (bytes : list N)
-| NeOrder1            (* the data goes to the order-1 entropy coder: not modelled *)
 | NeStripe            (* STRIPE: not modelled *)
 | NePanic             (* arithmetic overflow panic (2^32 bytes or more) *)
 | NeDiverges.         (* state_renormalize never terminates *)
@@ -27,9 +26,9 @@ Definition nx_encode_e (f : nxflags) (src : list N) : nxe_result :=
     let '(f2, s2, h2) := nx_rle_stage f1 s1 in
     let f3 := if (length s2 <? state_count f2)%nat then force_cat f2 else f2 in
     if f_cat f3 then NeOk (byte_of_flags f3 :: size ++ h1 ++ h2 ++ s2)
-    else if f_order f3 then NeOrder1
     else
-      match nx_o0_encode (state_count f3) s2 with
+      match (if f_order f3 then nx_o1_encode (state_count f3) s2
+             else nx_o0_encode (state_count f3) s2) with
       | EncOk body => NeOk (byte_of_flags f3 :: size ++ h1 ++ h2 ++ body)
       | EncDiverges => NeDiverges
       | _ => NePanic
@@ -118,9 +117,9 @@ Definition nx_decode_e (bs : list N) (usize : N) : nxd_result :=
                 | None => DErr
                 | Some (payload, _) => DOk payload
                 end
-              else if f_order f then DUnsupported
               else
-                match nxd0_decode r3 (N.to_nat size2) (state_count f) with
+                match (if f_order f then nxd1_decode r3 (N.to_nat size2) (state_count f)
+                       else nxd0_decode r3 (N.to_nat size2) (state_count f)) with
                 | ROk d => DOk d
                 | RErr => DErr
                 | RPanic => DPanic
